@@ -11,6 +11,7 @@ import WB.Lemmas.C06Bridge
 import WB.Lemmas.C06Excl
 import WB.Lemmas.C06TetTile
 import WB.Lemmas.C06SplitSize
+import WB.Lemmas.C06Restart
 import Mathlib.Tactic.IntervalCases
 
 namespace WB.C06
@@ -263,6 +264,44 @@ theorem history_invariant (syms : List Sym) (div : Idx) (useSym : Bool) (per : B
     apply ih (fun o ho => hops o (by simp [ho]))
     · rw [refineStep_total syms useSym per l op p1 p2 p3]; exact a
     · exact refineStep_nonneg syms useSym per l op b
+
+/-! ## T5' — restart of run() from a stored iteration: the stored factor vector of that iteration (shorter than the
+    stored K-list when later iterations created more points) is padded with zeros.  Then the weights of the restarted
+    list are exactly the stored ones followed by zeros: every point created after that iteration is dead, positions,
+    cells and levels are untouched, and the total is the stored total (= 1).  Without the padding the later points keep
+    the weight they were pickled with and the total exceeds 1. -/
+
+theorem restart_weights (l : List KPoint) (stored : List Rat) (h : stored.length ≤ l.length) :
+    (restartWeights l stored).map KPoint.factor = stored ++ List.replicate (l.length - stored.length) 0 ∧
+    totalW (restartWeights l stored) = stored.sum ∧
+    (restartWeights l stored).map (fun k => (k.K, k.dK, k.level)) = l.map (fun k => (k.K, k.dK, k.level)) ∧
+    ((∀ f ∈ stored, 0 ≤ f) → ∀ k ∈ restartWeights l stored, 0 ≤ k.factor) := by
+  have e : (restartWeights l stored).map KPoint.factor = padFactors stored l.length :=
+    setFactors_factors l _ (padFactors_length stored l.length h)
+  refine ⟨e, ?_, setFactors_keys l _, ?_⟩
+  · unfold totalW; rw [e, padFactors_sum]
+  · intro hs k hk
+    have : k.factor ∈ (restartWeights l stored).map KPoint.factor := List.mem_map.mpr ⟨k, hk, rfl⟩
+    rw [e] at this
+    unfold padFactors at this
+    rcases List.mem_append.mp this with h1 | h1
+    · exact hs _ h1
+    · rw [(List.mem_replicate.mp h1).2]
+
+/-- a history that reaches the restart: after any refinement history the weights sum to 1; restarting from the
+    factors of an earlier state of the same list (a prefix-length vector with sum 1) gives total weight 1 again -/
+theorem restart_total_one (l : List KPoint) (stored : List Rat) (h : stored.length ≤ l.length) (h1 : stored.sum = 1) :
+    totalW (restartWeights l stored) = 1 := by
+  rw [(restart_weights l stored h).2.1, h1]
+
+/-- the counterexample without padding: one point of weight 1 was divided into two children (stored list: dead parent
+    + two children of 1/2); restarting from the state before the division gives the parent its weight back - with the
+    padding the children die (total 1), without it they keep 1/2 each (total 2) -/
+theorem restart_without_padding_gains_weight :
+    let k : Rat → KPoint := fun w => { K := ⟨0, 0, 0⟩, dK := ⟨1, 1, 1⟩, factor := w, level := 0 }
+    totalW (restartWeights [k 0, k (1/2), k (1/2)] [1]) = 1 ∧
+    totalW (restartWeightsNoPad [k 0, k (1/2), k (1/2)] [1]) = 2 := by
+  decide +kernel
 
 /-! ## T6 — tetrahedral grids -/
 
